@@ -1,4 +1,5 @@
 (* engine name -> extracted checker *)
 let table : (string * (Model.sx -> Model.sx)) list = [
   "parts", Model.check_parts;
+  "voteset", Model.check_voteset;
 ]
